@@ -94,25 +94,43 @@ theorem fresh_inv_reachable (n : Nat) (c : Option Nat) (ops : List Op) (hop : no
     FreshInv (run (init n c 0) ops) :=
   freshInv_run (capInv_init n c 0) (freshInv_init n c) ops hop
 
-/-- FULL statement "no index ever has two executions that count (accepted) or may still count
-    (RUNNING)" — FALSE of the code: in a rerun (or retry) round with a concurrency limit
-    `_get_next_indexes` does not exclude the indexes whose new execution is still RUNNING.
-    Witness: 3 items, concurrency 2, item 0 fails, rerun with reset; when the re-execution of
-    item 0 is handled while that of item 1 is still RUNNING, item 1 is started again. -/
-theorem index_started_once_full_fails :
-    ¬ (∀ (n : Nat) (c : Option Nat) (r : Nat) (ops : List Op) (i : Nat),
-        liveCount (run (init n c r) ops) i ≤ 1) := by
-  intro h
-  have := h 3 (some 2) 0
-    [.start, .result 0 .error, .result 1 .success, .handled, .handled, .result 2 .success, .handled,
-     .rerun true, .result 3 .success, .handled] 1
-  revert this
-  decide
+/-- (`inv_init`) invariant of ALL histories (reruns, retries included): every index has at most one
+    execution that counts (accepted) or may still count (RUNNING); the indexes that occur are
+    exactly `0..m-1` for a frontier `m ≤ n`. -/
+theorem live_inv_init (n : Nat) (c : Option Nat) (r : Nat) : LiveInv (init n c r) := liveInv_init n c r
 
-/-- PARTIAL (excluded: operation sequences containing a rerun, and tasks with a retry policy,
-    decidable predicates `noRerun ops`, `r = 0`): in the first round the k-th execution has index
-    k, so no index is started twice and no index beyond the item count is started. -/
-theorem index_started_once_partial (n : Nat) (c : Option Nat) (ops : List Op) (hop : noRerun ops = true)
+/-- (`inv_step`) -/
+theorem live_inv_step (s : WI) (op : Op) (h : LiveInv s) : LiveInv (step s op) := liveInv_step h op
+
+/-- (`inv_reachable`) -/
+theorem live_inv_reachable (n : Nat) (c : Option Nat) (r : Nat) (ops : List Op) :
+    LiveInv (run (init n c r) ops) := liveInv_run (liveInv_init n c r) ops
+
+/-- "starts exactly one action per item index", full strength (true since the repository fix
+    494951d1; before it the witness 3 items / concurrency 2 / rerun with reset started item 1
+    twice — now the regression corpus/C07/k2_rerun_index_twice.json): in every reachable state,
+    after any number of reruns (reset or not) and retries, no index has two executions that are
+    accepted or RUNNING. -/
+theorem index_started_once (n : Nat) (c : Option Nat) (r : Nat) (ops : List Op) (i : Nat) :
+    liveCount (run (init n c r) ops) i ≤ 1 :=
+  (live_inv_reachable n c r ops).uniq i
+
+/-- … and no execution is ever created for an index outside `0..n-1`. -/
+theorem index_in_range (n : Nat) (c : Option Nat) (r : Nat) (ops : List Op) :
+    ∀ it ∈ (run (init n c r) ops).items, it.index < n := by
+  intro it hit
+  obtain ⟨m, hm, hlt, _⟩ := (live_inv_reachable n c r ops).front
+  have h1 := hlt it.index (List.mem_map.mpr ⟨it, hit, rfl⟩)
+  have h2 : (run (init n c r) ops).specCount = n := (run_spec _ ops).1
+  omega
+
+/-- non-vacuity / the former counter-witness: after the rerun round every index is live once -/
+example : (List.range 3).map (liveCount (run (init 3 (some 2) 0)
+    [.start, .result 0 .error, .result 1 .success, .handled, .handled, .result 2 .success, .handled,
+     .rerun true, .result 3 .success, .handled])) = [1, 1, 1] := by decide
+
+/-- In the first round (no rerun, no retry policy) moreover the k-th execution has index k. -/
+theorem index_is_position_first_round (n : Nat) (c : Option Nat) (ops : List Op) (hop : noRerun ops = true)
     (s : WI) (hs : s = run (init n c 0) ops) :
     s.items.map (·.index) = List.range s.items.length ∧ (s.items.map (·.index)).Nodup ∧
     s.items.length ≤ n := by
@@ -304,7 +322,7 @@ theorem empty_succeeds (c : Option Nat) (r : Nat) :
     (step (init 0 c r) .start).tstate = .success ∧ (step (init 0 c r) .start).items = [] := by
   rcases policyConc_cases c with h | ⟨k, h⟩ <;>
     simp [step, init, scheduleActions, scheduleBody, prepare, nextIndexes, indices, candidates,
-      unacceptedIdx, acceptedIdx, sortDedup, nextStartIndex, rangeFromTo, takeCap, h, complete, TSt.completed]
+      unacceptedIdx, takenIdx, sortDedup, nextStartIndex, rangeFromTo, takeCap, h, complete, TSt.completed]
 
 /-! ## "a partial rerun re-executes only the failed items" -/
 
@@ -315,47 +333,50 @@ theorem rerun_creates (s : WI) (reset : Bool) (he : s.tstate = .error) (hne : re
       (rerunStarted s reset).map (fun i => { index := i, state := .running, accepted := false }) :=
   step_rerun_items reset he hne
 
-/-- exact characterisation for `reset = false`: a started index is a failed one (executed, no
-    accepted SUCCESS) — or lies beyond the largest failed index (the defect below). -/
-theorem rerun_false_started (s : WI) (i : Nat) (h : i ∈ rerunStarted s false) :
-    (executed s i = true ∧ succeeded s i = false) ∨
-    (∃ m, (candidates (rerunPrepared s false)).getLast? = some m ∧ m < i ∧ i < s.specCount) ∨
-    (candidates (rerunPrepared s false) = [] ∧ i < s.specCount) := by
-  rcases mem_indices_cases (mem_takeCap h) with h1 | ⟨m, hm, _, h2, h3⟩ | ⟨h1, _, h3⟩
-  · left; exact (rerun_false_candidates s i).mp h1
-  · right; left; rw [rerunPrepared_count] at h3; exact ⟨m, hm, h2, h3⟩
-  · right; right; rw [rerunPrepared_count] at h3; exact ⟨h1, h3⟩
-
-/-- FULL statement "with reset=false only items without an accepted SUCCESS are re-executed" —
-    FALSE of the code: `_get_next_indexes` appends `range(max(candidates)+1, count)` to the failed
-    indexes, i.e. every item AFTER the last failed one, although those succeeded.
-    Witness: 3 items, no limit, item 0 fails, items 1 and 2 succeed; rerun(reset=false) starts 0,1,2. -/
-theorem rerun_only_failed_full_fails :
-    ¬ (∀ (n : Nat) (c : Option Nat) (r : Nat) (ops : List Op),
-        (run (init n c r) ops).tstate = .error →
-        ∀ i ∈ rerunStarted (run (init n c r) ops) false, succeeded (run (init n c r) ops) i = false) := by
-  intro h
-  have := h 3 none 0 [.start, .result 0 .error, .result 1 .success, .result 2 .success, .handled]
-    (by decide) 1 (by decide)
-  revert this
-  decide
-
-/-- PARTIAL (excluded: reruns in which the LAST item, index n-1, is not among the failed ones —
-    decidable predicate `(n-1) ∈ candidates`): then the rerun transaction starts only failed
-    items. -/
-theorem rerun_only_failed_partial (s : WI)
-    (hlast : (s.specCount - 1) ∈ candidates (rerunPrepared s false)) :
-    ∀ i ∈ rerunStarted s false, executed s i = true ∧ succeeded s i = false := by
+/-- "a partial rerun re-executes only the failed items", full strength (true since the repository
+    fix 494951d1; before it the witness 3 items / item 0 failed restarted 0,1,2 — now the regression
+    corpus/C07/k1_rerun_reexecutes_succeeded.json): in every reachable state a rerun with
+    reset=false creates executions only for indexes WITHOUT an accepted SUCCESS. -/
+theorem rerun_only_failed (n : Nat) (c : Option Nat) (r : Nat) (ops : List Op) :
+    ∀ i ∈ rerunStarted (run (init n c r) ops) false, succeeded (run (init n c r) ops) i = false := by
   intro i hi
-  rcases mem_indices_cases (mem_takeCap hi) with h1 | ⟨m, hm, hlt, _, _⟩ | ⟨h1, _, _⟩
-  · exact (rerun_false_candidates s i).mp h1
-  · exfalso
-    have := le_getLast_of_sorted (sortDedup_sorted _) hm hlast
-    rw [rerunPrepared_count] at hlt
+  have hL := live_inv_reachable n c r ops
+  generalize run (init n c r) ops = s at hL hi
+  -- the state in which the rerun transaction computes the indexes satisfies the invariant too
+  have hP : LiveInv (rerunPrepared s false) ∧ (rerunPrepared s false).prepared = true := by
+    refine ⟨?_, by simp [rerunPrepared, prepare]⟩
+    exact liveInv_map (s := s) (resetOne false) (by rw [rerunPrepared_items, resetActions_eq])
+      (resetOne_index false) (resetOne_live false) (by simp [rerunPrepared, prepare])
+      (fun _ => by simp [rerunPrepared, prepare]) hL
+  obtain ⟨m, hm, hlt, hall⟩ := hP.1.front
+  have hcnt := hP.1.cnt hP.2
+  have hidx := indices_eq hP.1.uniq (by omega) hlt hall
+  have hmem := mem_takeCap hi
+  rw [hidx, List.mem_append] at hmem
+  rcases hmem with h | h
+  · exact (rerun_false_candidate_failed s i h).2
+  · rw [List.mem_range'_1] at h
+    rw [Bool.eq_false_iff]
+    intro hs
+    obtain ⟨it, hit, hp⟩ := List.any_eq_true.mp hs
+    simp only [Bool.and_eq_true, beq_iff_eq] at hp
+    have : i ∈ allIdx (rerunPrepared s false) := by
+      unfold allIdx
+      rw [rerunPrepared_items, resetActions_eq, List.map_map]
+      exact List.mem_map.mpr ⟨it, hit, by simp [Function.comp, resetOne_index, hp.1]⟩
+    have := hlt i this
     omega
-  · rw [h1] at hlast; simp at hlast
 
-/-- non-vacuity of the partial statement: items 0 and 2 of 3 failed: exactly 0 and 2 restart -/
+/-- … and never for an index whose execution is accepted or still RUNNING, nor twice. -/
+theorem rerun_starts_each_once (n : Nat) (c : Option Nat) (r : Nat) (ops : List Op) (reset : Bool) (i : Nat) :
+    liveCount (step (run (init n c r) ops) (.rerun reset)) i ≤ 1 :=
+  (live_inv_step _ (.rerun reset) (live_inv_reachable n c r ops)).uniq i
+
+/-- the former counter-witness: item 0 of 3 failed, 1 and 2 succeeded: only item 0 restarts -/
+example : rerunStarted (run (init 3 none 0)
+    [.start, .result 0 .error, .result 1 .success, .result 2 .success, .handled]) false = [0] := by decide
+
+/-- non-vacuity: items 0 and 2 of 3 failed: exactly 0 and 2 restart -/
 example : rerunStarted (run (init 3 none 0)
     [.start, .result 0 .error, .result 1 .success, .result 2 .error, .handled]) false = [0, 2] := by decide
 
@@ -379,12 +400,14 @@ theorem rerun_reset_restarts_all (n : Nat) (c : Option Nat) (ops : List Op) (hop
     intro it hit
     have := hf.acc it hit (hall it hit)
     simp [Item.completed, this]
-  have hacc : acceptedIdx (rerunPrepared s true) = [] := by
-    unfold acceptedIdx
+  have hacc : takenIdx (rerunPrepared s true) = [] := by
+    unfold takenIdx
     rw [rerunPrepared_items, resetActions_eq]
     simp only [List.map_eq_nil_iff, List.filter_eq_nil_iff, List.mem_map]
-    rintro x ⟨it, _, rfl⟩
-    simp [(resetOne_true_props it).2.1]
+    rintro x ⟨it, hit, rfl⟩
+    have hc := hcompl it hit
+    obtain ⟨i0, st, a⟩ := it
+    cases st <;> simp_all [resetOne, Item.completed]
   have hun : unacceptedIdx (rerunPrepared s true) = List.range n := by
     unfold unacceptedIdx
     rw [rerunPrepared_items, resetActions_eq]
